@@ -29,6 +29,7 @@ type C14Case struct {
 	Late     int     `json:"late,omitempty"`     // a goroutine that registers this many cleanups while the cleanups of the test case are running
 	RawLog   bool    `json:"rawlog,omitempty"`   // -rapid.log
 	ShrinkMS int     `json:"shrinkms,omitempty"` // > 0: minimization attempts run the property (and its goroutines) on fresh Ts
+	InCustom bool    `json:"incustom,omitempty"` // the extra goroutines run while the property's goroutine is inside a Custom generator function
 	LateCtx  bool    `json:"latectx,omitempty"`  // ... and asks for the context then: the property function has returned, so it must be a cancelled one
 }
 
@@ -69,6 +70,7 @@ func (c14) Gen(dt *drv.T, c *Ctx) any {
 	cs.Seed = drv.Uint64Range(1, 1<<40).Draw(dt, "seed")
 	cs.DrawMain = drv.Bool().Draw(dt, "drawmain")
 	cs.RawLog = chance(dt, "rawlog", 30)
+	cs.InCustom = chance(dt, "incustom", 30)
 	if !quiet && chance(dt, "shrink", 40) {
 		cs.ShrinkMS = pick(dt, "shrinkms", 2, 10)
 	}
@@ -186,6 +188,11 @@ func (c14) Run(c *Ctx, csAny any) Outcome {
 	var invs []*c14Inv
 	var viol *Violation
 	intGen := rapid.Int()
+	var inCustom func()
+	customGen := rapid.Custom(func(ct *rapid.T) int {
+		inCustom()
+		return rapid.IntRange(0, 3).Draw(ct, "x")
+	})
 	prop := func(t *rapid.T) {
 		if n := len(invs); n > 0 && viol == nil {
 			viol = invs[n-1].validate()
@@ -200,6 +207,8 @@ func (c14) Run(c *Ctx, csAny any) Outcome {
 			// registered first, so it runs last: waits for the late registrar, whose cleanups then still have to run
 			released, lateDone = make(chan struct{}), make(chan struct{})
 			t.Cleanup(func() { <-lateDone })
+			// registered last, also when the property is left early (a draw that runs out of data): the first cleanup to run
+			defer func() { t.Cleanup(func() { close(released) }) }()
 			go func() {
 				defer close(lateDone)
 				<-released // the cleanups of this test case have started to run
@@ -227,12 +236,19 @@ func (c14) Run(c *Ctx, csAny any) Outcome {
 				cs.exec(t, iv, g, cs.Gs[g])
 			}(g)
 		}
-		close(start)
-		cs.exec(t, iv, len(cs.Gs), cs.Main)
-		wg.Wait()
-		if cs.Late > 0 {
-			t.Cleanup(func() { close(released) }) // registered last: the first cleanup to run
+		if cs.InCustom {
+			// everything the other goroutines do on t happens while this goroutine is inside a Custom function (which
+			// has a T of its own)
+			var once sync.Once // the function is called again when its attempt runs out of data (minimization candidates)
+			inCustom = func() { once.Do(func() { close(start); wg.Wait() }) }
+			customGen.Draw(t, "c")
+			cs.exec(t, iv, len(cs.Gs), cs.Main)
+		} else {
+			close(start)
+			cs.exec(t, iv, len(cs.Gs), cs.Main)
+			wg.Wait()
 		}
+
 	}
 	obs := RunCheck(CheckCfg{Name: "TestC14", Seed: cs.Seed, Checks: cs.Checks, ShrinkNS: int64(cs.ShrinkMS) * 1e6, NoFailFile: true, Verbose: cs.Verbose, Log: cs.RawLog}, prop)
 	if n := len(invs); n > 0 && viol == nil {
@@ -245,6 +261,9 @@ func (c14) Run(c *Ctx, csAny any) Outcome {
 	}
 	if cs.RawLog {
 		out.Classes = append(out.Classes, "rapid.log")
+	}
+	if cs.InCustom {
+		out.Classes = append(out.Classes, "goroutines-run-while-inside-a-Custom-function")
 	}
 	if cs.ShrinkMS > 0 {
 		out.Classes = append(out.Classes, "with-minimization-attempts")
